@@ -561,3 +561,122 @@ pub fn write_evidence(ctx: &Ctx, violations: usize) {
         eprintln!("cannot write evidence {}: {}", path.display(), e);
     }
 }
+
+/// Coverage-guided stage (thorough tier): run a cargo-fuzz / libFuzzer target that calls the
+/// same oracle. `workers` independent processes, each `runs` executions from its own seed
+/// and a fresh corpus seeded with `seeds`. A crash is re-validated by `replay` in this
+/// (stable-built) process before it counts. Returns (stats, violation).
+pub fn fuzz_stage(
+    ctx: &Ctx,
+    target: &str,
+    runs: u64,
+    max_len: usize,
+    seeds: &[Vec<u8>],
+    replay: fn(&Value) -> Check,
+) -> (Stats, Option<Violation>) {
+    let mut st = Stats::default();
+    let bin = ctx
+        .verif_dir
+        .join("target/harness/x86_64-unknown-linux-gnu/release")
+        .join(target);
+    if !bin.exists() {
+        st.note(format!("fuzz target {} not built (nightly / cargo-fuzz unavailable): stage skipped", target));
+        return (st, None);
+    }
+    let base = ctx.verif_dir.join("work").join(format!("fuzz-{}-{}", target, std::process::id()));
+    let _ = std::fs::remove_dir_all(&base);
+    let out_dir = ctx.verif_dir.join("replays");
+    let _ = std::fs::create_dir_all(&out_dir);
+    let workers = ctx.workers.max(1);
+    let mut children = Vec::new();
+    for w in 0..workers {
+        let corpus = base.join(format!("corpus{}", w));
+        let _ = std::fs::create_dir_all(&corpus);
+        for (i, s) in seeds.iter().enumerate() {
+            let _ = std::fs::write(corpus.join(format!("seed{}", i)), s);
+        }
+        let art = base.join(format!("art{}/", w));
+        let _ = std::fs::create_dir_all(&art);
+        let seed = (sub_seed(ctx.seed, target, w as u64) % 0x7fff_fffe) + 1;
+        let child = std::process::Command::new(&bin)
+            .arg(&corpus)
+            .arg(format!("-runs={}", runs))
+            .arg(format!("-seed={}", seed))
+            .arg("-len_control=0")
+            .arg(format!("-max_len={}", max_len))
+            .arg(format!("-artifact_prefix={}", art.display()))
+            .arg("-print_final_stats=1")
+            .env("VERIF_FUZZ_OUT", &out_dir)
+            .env("RUST_BACKTRACE", "0")
+            .stdin(std::process::Stdio::null())
+            .stdout(std::process::Stdio::null())
+            .stderr(std::process::Stdio::piped())
+            .spawn();
+        match child {
+            Ok(c) => children.push(c),
+            Err(e) => st.note(format!("cannot start fuzz worker: {}", e)),
+        }
+    }
+    let mut viol: Option<Violation> = None;
+    for c in children {
+        let out = match c.wait_with_output() {
+            Ok(o) => o,
+            Err(_) => continue,
+        };
+        let err = String::from_utf8_lossy(&out.stderr).into_owned();
+        let mut executed = 0u64;
+        for l in err.lines() {
+            if let Some(r) = l.strip_prefix("stat::number_of_executed_units:") {
+                executed = r.trim().parse().unwrap_or(0);
+            }
+        }
+        if executed == 0 {
+            // crashed runs do not always print the final stats: take the last progress line
+            for l in err.lines().rev() {
+                if l.starts_with('#') {
+                    executed = l[1..].split_whitespace().next().and_then(|x| x.parse().ok()).unwrap_or(0);
+                    break;
+                }
+            }
+        }
+        st.evals(executed);
+        st.class_n(&format!("libfuzzer-executions:{}", target), executed);
+        if let Some(l) = err.lines().find(|l| l.starts_with("FUZZ-VIOLATION")) {
+            let path = l.split("replay=").nth(1).unwrap_or("").trim().to_string();
+            if viol.is_none() {
+                match std::fs::read_to_string(&path).ok().and_then(|s| serde_json::from_str::<Value>(&s).ok()) {
+                    Some(v) => match replay(&v["case"]) {
+                        Err(mut real) => {
+                            real.message = format!("(found by libFuzzer target {}) {}", target, real.message);
+                            viol = Some(real);
+                        }
+                        Ok(()) => st.note(format!("a libFuzzer report did not reproduce in the stable harness: {}", path)),
+                    },
+                    None => st.note(format!("unreadable fuzz report {}", path)),
+                }
+            }
+        } else if !out.status.success() {
+            let tail: Vec<&str> = err.lines().rev().take(6).collect();
+            st.note(format!("fuzz worker for {} ended with {:?}: {}", target, out.status.code(), tail.join(" | ")));
+        }
+    }
+    // count corpus growth as the distinct non-trivial inputs of this stage
+    let mut corpus_files = 0u64;
+    for w in 0..workers {
+        if let Ok(rd) = std::fs::read_dir(base.join(format!("corpus{}", w))) {
+            for e in rd.flatten() {
+                if let Ok(b) = std::fs::read(e.path()) {
+                    corpus_files += 1;
+                    st.nontrivial(util::fnv(&b));
+                    if st.nt_samples.len() < 2 && b.len() < 120 {
+                        let s = String::from_utf8_lossy(&b).into_owned();
+                        st.nt_sample(|| json!({"libfuzzer_corpus_entry": s, "target": target}));
+                    }
+                }
+            }
+        }
+    }
+    st.class_n(&format!("libfuzzer-corpus-entries:{}", target), corpus_files);
+    let _ = std::fs::remove_dir_all(&base);
+    (st, viol)
+}
